@@ -9,7 +9,8 @@ def _setup(two_envs):
     sx, sy, sz = [oqupy.operators.sigma(c) for c in 'xyz']
     dt, n = 0.2, 4
     env0 = np.array([[0.6, 0.1], [0.1, 0.4]])
-    ptz, _ = _ancilla_pt(dt, n, 0.9 * np.kron(sz, sx), 0.3 * sz, env0, close_last_bond=True)
+    # (a complex Hermitian coupling: the MPO tensors are then NOT symmetric in their system legs)
+    ptz, _ = _ancilla_pt(dt, n, 0.9 * np.kron(sz, sx) + 0.5 * np.kron(sy, sz), 0.3 * sz, env0, close_last_bond=True)
     ptx, _ = _ancilla_pt(dt, n, 0.7 * np.kron(sx, sx), 0.2 * sz, env0, close_last_bond=True)
     pts = [ptz, ptx] if two_envs else [ptz]
 
